@@ -391,6 +391,27 @@ def check(ctx):
                 ctx.ob("verbatim.read-to-slot", f, n.ast, direct, "the slot receives exactly fp.read()" if direct else
                        "file content is transformed (sliced / stripped / partially read) before it is kept as the key", node=n)
                 # same path as the one the generator writes: both derive from self.filename
+    # the key lives in the slot only: nothing built from it is kept on the KeyFile beyond the session
+    for f in methods:
+        for n in an.cfg(f).nodes:
+            if n.kind != "assign" or not isinstance(n.ast, (ast.Assign, ast.AnnAssign)) or n.ast.value is None:
+                continue
+            tgts = n.ast.targets if isinstance(n.ast, ast.Assign) else [n.ast.target]
+            keeps = []
+            for t in tgts:
+                base = t
+                while isinstance(base, ast.Subscript):
+                    base = base.value
+                if isinstance(base, ast.Attribute) and isinstance(base.value, ast.Name) and base.value.id == f.self_name and base.attr != slot:
+                    keeps.append(t)
+            if not keeps:
+                continue
+            carries = any(is_slot(x, f, slot) for x in ast.walk(n.ast.value)
+                          if not (isinstance(getattr(x, "_parent", None), ast.Call) and isinstance(x._parent.func, ast.Name) and x._parent.func.id == "len"))
+            ctx.ob("slot.no-copies", f, n.ast, not carries,
+                   "stores nothing derived from the key" if not carries else
+                   "an object built from the key is kept in %s: __exit__ clears the slot but this copy survives the session (and a key "
+                   "changed on disk is not picked up by the next one)" % ast.unparse(keeps[0]), node=n, nontrivial=carries)
     # slot -> provider constructors -> primitives
     gp = model.method("KeyFile", "_get_provider")
     nprov = 0
@@ -403,7 +424,12 @@ def check(ctx):
             okp = is_slot(n.ast.args[0], gp, slot)
             ctx.ob("verbatim.slot-to-provider", gp, n.ast, okp, "provider receives the key slot itself" if okp else
                    "the provider is constructed with %s instead of the loaded key" % ast.unparse(n.ast.args[0]), node=n)
-    ctx.need(nprov >= 2, "provider constructions not found in _get_provider")
+    if nprov < 2:
+        # constructions the call resolver cannot name (class picked at run time): still must receive the slot
+        for n in an.cfg(gp).nodes:
+            if n.kind == "call" and n.ast.args and any(is_slot(a, gp, slot) for a in n.ast.args):
+                nprov += 1
+    ctx.need(nprov >= 1, "provider constructions not found in _get_provider")
     for c in model.cls("IEncryptionProvider").subclasses(strict=True):
         init = c.methods.get("__init__")
         if init is None:
